@@ -293,3 +293,16 @@ Print Assumptions c19_reached_accepts.
 Print Assumptions c19_flow_nonvacuous_chunked.
 Print Assumptions c19_flow_nonvacuous_sized.
 Print Assumptions c19_mono_unrestricted_refuted.
+
+(* ================================================================== BodyWriter::write itself (translated from the source) *)
+(** The function whose progress this property is about is translated on every run (theories/Gen2.v, [gen_bw_write], with its chunk
+    loop) and proved to produce, for every body mode, flag, input and capacity, the model's result -- same mode and flag, same bytes
+    appended, same consumed count, the same refusal (proofs/Gen2_equiv_writer.v; for a sized body one of the three quantities is
+    below 2^64, as every real one is).  The progress theorems above are about [writer_write]; with this they are about the code. *)
+From Hoot Require Import GenLib Gen2.
+From Hoot.proofs Require Import Gen2_equiv_rel Gen2_equiv_writer.
+Theorem c19_code_write_equiv : forall m e input avail out0,
+  sized_fits m avail input ->
+  wr_rel avail out0 (gen_bw_write m e input avail out0) (writer_write {| w_mode := m; w_ended := e |} input avail).
+Proof. exact gen_bw_write_equiv. Qed.
+Print Assumptions c19_code_write_equiv.
